@@ -144,6 +144,9 @@ def resolve_record_arg(ctx, f, argtxt):
         return argtxt
     mo = re.match(r'^self\.(\w+)\[_k\d+\]\[(\d+)\]$', argtxt)
     if not mo:
+        # the same list handed out in another order: sorted(self.X, key=...)[_k][i]
+        mo = re.match(r'^(?:sorted|reversed|list|tuple)\(self\.(\w+)(?:, (?:key|reverse)=.*)?\)\[_k\d+\]\[(\d+)\]$', argtxt)
+    if not mo:
         return argtxt
     rec = record_fields(ctx, f.cls, mo.group(1)).get(int(mo.group(2)))
     if rec and len(rec) == 1:
@@ -161,6 +164,11 @@ def tag_kind(argtxt):
     if re.search(r'\.n\+1$|\.n$|\.idx\+1$|\.idx$|^n\+1$', a):
         return 'position'
     return 'other'
+
+
+def writer_functions_of(ctx):
+    from ..rules import writer_functions
+    return writer_functions(ctx, ('as_cmdline',))
 
 
 def run(ctx, ck):
@@ -456,6 +464,38 @@ def run(ctx, ck):
                 and c.func.attr == 'append' and norm(c.func.value) in ('self.transforms', 'self.scales')]
         ok = len(apps) == 1 and gfl2.cfg.must_pass(gfl2.cfg.exit.id, {gfl2.node_id_of(apps[0])})
         ck.ob('R-EXH.writer-loops', q + '|recorded', ok, g.loc(), 'every transformation is recorded for the writer')
+
+    # the reader applies the transformations in the order of their sort key, equal keys in the order they are given
+    # (a stable sort on the key alone): the writers must hand the recorded entries out in recorded order - or sorted
+    # by that key alone.  Sorting the records as wholes orders entries with equal keys by kind and vector.
+    ck.rule('R-WR.record-order', 'recorded transformations / loads are written in recorded order (or sorted by their key alone)')
+    n_ro = 0
+    for wf in sorted(writer_functions_of(ctx), key=lambda x: x.qual):
+        for c_ in walk_no_nested(wf.node):
+            seq_ = None
+            if isinstance(c_, ast.Call) and isinstance(c_.func, ast.Name) and c_.func.id == 'sorted' and c_.args:
+                seq_ = c_.args[0]
+            elif isinstance(c_, ast.Call) and isinstance(c_.func, ast.Attribute) and c_.func.attr == 'sort' and not c_.args:
+                seq_ = c_.func.value
+            if seq_ is None or not (isinstance(seq_, ast.Attribute) and isinstance(seq_.value, ast.Name) and seq_.value.id == 'self'
+                                    and seq_.attr in ('transforms', 'scales')):
+                continue
+            n_ro += 1
+            key_ = [k_.value for k_ in c_.keywords if k_.arg == 'key']
+            first = False
+            if key_ and isinstance(key_[0], ast.Lambda) and len(key_[0].args.args) == 1:
+                b_ = key_[0].body
+                a_ = key_[0].args.args[0].arg
+                first = isinstance(b_, ast.Subscript) and isinstance(b_.value, ast.Name) and b_.value.id == a_ and \
+                    isinstance(b_.slice, ast.Constant) and b_.slice.value == 0
+            elif key_ and isinstance(key_[0], ast.Call) and (dotted(key_[0].func) or '').endswith('itemgetter') and \
+                    len(key_[0].args) == 1 and isinstance(key_[0].args[0], ast.Constant) and key_[0].args[0].value == 0:
+                first = True
+            ck.ob('R-WR.record-order', '%s|%s' % (wf.qual, norm(c_)[:50]), first, wf.loc(c_),
+                  'sorted by the sort key alone (stable: equal keys keep their recorded order)' if first else
+                  '%s orders entries with equal sort keys by their other fields (kind, vector): they are written - and read '
+                  'back, applied - in another order than they were applied here' % norm(c_)[:60])
+    ck.info('sorts_of_recorded_entries_in_writers', n_ro)
 
     # ---------------------------------------------------------------- media: what only a medium with a successor has
     # The reader gives a medium without a fourth field the interface coordinate "infinity", and the boundary kind /
